@@ -206,9 +206,14 @@ def shard_failpoints(desc, rec):
     rng = random.Random(desc["seed"] * 19 + desc.get("shard", 0))
     for i in range(desc["n"]):
         kind = gen.KINDS[(i + desc.get("shard", 0) * 3) % 9]
+        # every kind is visited with the block present (replace / set) on its even visits and absent (add / set) on its
+        # odd ones, so that both request paths of every encoder are exercised whatever the random streams give
+        want_present = (i // 9) % 2 == 0
         init = C.describe_init(rng, how="foreign")
-        while init["n"] - init["nlive"] < 1:
+        tries_ = 0
+        while (init["n"] - init["nlive"] < 1 or ((kind in init["_types"]) != want_present and tries_ < 200)):
             init = C.describe_init(rng, how="foreign")
+            tries_ += 1
         present = kind in init["_types"]
         how = rng.choice(["replace", "set"] if (present and kind in C.SETTER) else
                          ["replace"] if present else (["add", "set"] if kind in C.SETTER else ["add"]))
